@@ -25,6 +25,14 @@ AGGS = ["arr_sum", "arr_prod", "arr_mean", "arr_median", "arr_stddev", "arr_rank
 
 def keys_of(shape, alt=False):
     """list of key tuples of an array of that shape; alt=True uses a different name set"""
+    if alt == "perm":
+        # the SAME names, declared in the reverse order (rows for matrices)
+        ks = keys_of(shape, False)
+        if shape[0] == "v":
+            return ks[::-1]
+        c = shape[2]
+        rows = [ks[i * c:(i + 1) * c] for i in range(shape[1])]
+        return [k for row in rows[::-1] for k in row]
     if shape[0] == "v":
         names = (COLN if alt else ROWN) if shape[2] else IDX
         return [(names[i],) for i in range(shape[1])]
@@ -221,6 +229,8 @@ def cases(tier):
                     out.append(("ewexpr", op, sh, ("left", inner), False))
             if sh[-1]:
                 out.append(("ew", op, sh, sh, True))            # same shape, different names -> reject
+                if sh[1] > 1:
+                    out.append(("ew", op, sh, sh, "perm"))      # same names declared in another order -> by name or reject
         # mismatched shapes of the same rank
         for a in shapes:
             for b in shapes:
@@ -257,7 +267,7 @@ def cases(tier):
 
 def describe(case):
     kind, op, a, b, alt = case
-    return "%s:%s A=%s B=%s%s" % (kind, op, a, b, " (different names)" if alt else "")
+    return "%s:%s A=%s B=%s%s" % (kind, op, a, b, " (same names, other order)" if alt == "perm" else " (different names)" if alt else "")
 
 
 # ------------------------------------------------------------------ run one case
@@ -285,13 +295,14 @@ def build(case, sym, env=None):
     else:
         get = lambda n: float(env.get(n, 1.0))
     a = as_matrix(sa, get, "A")
-    b = as_matrix(sb, get, "B", alt) if B is not None else None
+    # "perm": the reference aligns B on A's names (numpy after alignment), whatever order B was declared in
+    b = as_matrix(sb, get, "B", alt is True) if B is not None else None
     na, nb = np_shape(sa), (np_shape(sb) if B is not None else None)
     num = 2.5
     # reference
     try:
         if kind == "ew":
-            if alt or (sa[0] != "s" and sb[0] != "s" and sa[-1] != sb[-1]):
+            if alt is True or (sa[0] != "s" and sb[0] != "s" and sa[-1] != sb[-1]):
                 raise ValueError("index names differ")
             ref = elementwise(op, a, b, na, nb)
             rs, rkeys = (na if na != () else nb), keys_of(sa if sa[0] != "s" else sb)
@@ -706,7 +717,7 @@ def run(tier):
         stubs.restore()
     for c, info in violated:
         kind, op, sa, sb, alt = c
-        sig = "%s:%s:%s:%s%s" % (kind, op if isinstance(op, str) else "-".join(op), _shape_class(sa), _shape_class(sb), ":altnames" if alt else "")
+        sig = "%s:%s:%s:%s%s" % (kind, op if isinstance(op, str) else "-".join(op), _shape_class(sa), _shape_class(sb), ":permnames" if alt == "perm" else ":altnames" if alt else "")
         env = {k: float(v) for k, v in info.items() if isinstance(v, (Fraction, int, float)) and not isinstance(v, bool)}
         rep.candidate(sig, {"case": c, "env": env}, "%s: %s" % (describe(c), {k: v for k, v in info.items() if k.startswith("_")} or "entry differs from numpy semantics"))
     rep.notes.append("accepted-by-numpy-but-refused-by-DSL cases (not violations; the property speaks about accepted equations): %d" % len(refused))
@@ -716,7 +727,7 @@ def run(tier):
                "time fixed at t=1 for converters; arrayed stocks (integrating an arrayed flow or an arrayed operator) at t=0,1,2 against Euler")
     rep.coverage.update({"programs": len(cs) + len(stock_cases), "arrayed_stock_cases": len(stock_cases), "disagreements_checked": len(violated), "samples": samples, "verdicts": counts,
                          "exhaustive": True,
-                         "bounds": "all shapes up to 3x3 (indexed+named) x {+,-,*,/} x operand forms; dot for every indexed shape pair incl. scalars; 8 aggregates; all same-rank mismatches",
+                         "bounds": "all shapes up to 3x3 (indexed+named) x {+,-,*,/} x operand forms; dot for every indexed shape pair incl. scalars; 8 aggregates; all same-rank mismatches; named operands with the same names declared in reverse order (by-name alignment or rejection)",
                          "outside": "3-dimensional arrays, shapes > 3x3"})
     return rep.finish()
 
